@@ -5,7 +5,7 @@ R  a sample of the walks is replayed into the real code (harness `life-replay`)
 T  seeded random scenarios are driven through the real code (harness `life`)
 V  TLC validates every recorded event against Zapx/ZapData (TraceLife.tla)
 """
-import json, os, random, subprocess, sys, time
+import re, json, os, random, subprocess, sys, time
 from vlib import *
 
 # which property a mismatch belongs to --------------------------------------
@@ -76,9 +76,9 @@ def plan_for(pid, tier):
         "C03": [("rich", 20 if q else 200, 6), ("mergey", 10 if q else 100, 6), ("lean", 2 if q else 10, 3)],
         "C04": [("rich", 12 if q else 100, 6), ("stored", 6 if q else 50, 5), ("mergey", 8 if q else 50, 6), ("lean", 1 if q else 4, 3)],
         "C05": [("rich", 10 if q else 120, 9), ("stored", 6 if q else 50, 8), ("mergey", 20 if q else 200, 9), ("leanmerge", 1 if q else 5, 0)],
-        "C06": [("rich", 8 if q else 120, 10), ("mergey", 24 if q else 300, 10), ("leancross", 1 if q else 6, 0), ("leanmerge", 0 if q else 8, 0)],
+        "C06": [("rich", 8 if q else 120, 10), ("mergey", 24 if q else 300, 10), ("leancross", 1 if q else 6, 0), ("leanmerge", 0 if q else 8, 0), ("wide", 1 if q else 5, 6)],
     }
-    P["C07"] = [("rich", 16 if q else 150, 6), ("mergey", 10 if q else 100, 6), ("lean", 1 if q else 6, 3)]
+    P["C07"] = [("rich", 16 if q else 150, 6), ("mergey", 10 if q else 100, 6), ("lean", 1 if q else 6, 3), ("wide", 1 if q else 6, 4)]
     P["C11"] = [("readstress", 3 if q else 30, 4 if q else 6, "race")]
     P["C12"] = [("syn", 30 if q else 300, 5), ("rich", 4 if q else 30, 4)]
     P["C13"] = [("syn", 40 if q else 400, 10)]
@@ -88,10 +88,10 @@ def plan_for(pid, tier):
     if pid == "C10":
         common.update(life_module="BuildPool", life_cfg="BuildPoolQ.cfg" if q else "BuildPool.cfg", replay_args=["-nogc"], attr_all=True,
                       invariants=["BuildIndependent", "AllWF"])
-    P["C19"] = [("engfail", 2 if q else 12, 0)]
+    P["C19"] = [("engfail", 3 if q else 12, 0)]
     if pid == "C19":
         common.update(life_cfg="LifeVecQ.cfg", tags=("verif", "vectors"), attr_all=True, walks=40)
-    P["C09"] = [("mergey", 8 if q else 120, 7), ("syn", 6 if q else 80, 6), ("rich", 4 if q else 60, 5)]
+    P["C09"] = [("mergey", 8 if q else 120, 7), ("syn", 6 if q else 80, 6), ("rich", 4 if q else 60, 5), ("wide", 1 if q else 6, 5), ("leancross", 0 if q else 1, 0)]
     if pid == "C09":
         common.update(layout=True, maxtlc=2000 if q else 30000, life_cfg="LifeSynQ.cfg" if q else "LifeSyn.cfg", walks=120 if q else 3000)
     P["C14"] = [("vec", 24 if q else 250, 5)]
@@ -110,7 +110,7 @@ def plan_for(pid, tier):
         common["models"] = [("Caches", "Caches_mutex.cfg", "NoRace", ["Caches_rlock-write.cfg"]),
                             ("Caches", "Caches_rw-double-checked.cfg", "NoRace", [])]
     if pid == "C06":
-        common["models"] = [("MergeImpl", "MergeImplQ.cfg" if q else "MergeImpl.cfg", "MergeIsRebuild", ["MergeImplMut_dropsI.cfg", "MergeImplMut_noEmptyFlush.cfg"])] + \
+        common["models"] = [("MergeImpl", "MergeImplQ.cfg" if q else "MergeImpl.cfg", "MergeIsRebuild", ["MergeImplMut_dropsI.cfg", "MergeImplMut_noEmptyFlush.cfg", "MergeImplMut_noNilCard.cfg"])] + \
                            ([] if q else [("MergeImpl", "MergeImpl3.cfg", "MergeIsRebuild", [])])
     if pid == "C09":
         import compcheck
@@ -193,21 +193,44 @@ LAYOUT = {"on": "0", "leafdec": ""}
 
 
 def validate(sc, trace, name, timeout=3000):
-    """TLC validation of a trace; returns (mismatches, accepted, rejected_at, stats)."""
-    outp, st = tlc(sc, "TraceLife", cfg="TraceLife.cfg", env={"TRACE": trace, "LAYOUT": LAYOUT["on"], "LEAFDEC": LAYOUT["leafdec"]},
-                   workers=1, timeout=timeout, outname=name)
-    mism, accepted, rej = [], None, None
-    for tag, payload in printed(outp, ("MISMATCH", "ACCEPTED", "REJECTED-AT")):
-        if tag == "MISMATCH":
-            mism.append(json.loads(payload))
-        elif tag == "ACCEPTED":
-            accepted = payload
-        else:
-            rej = payload
-    errs = tlc_errors(outp)
-    if accepted is None and rej is None:
-        raise Inconclusive("TLC neither accepted nor rejected the trace: %s\n%s" % (errs[:3], st["tail"]))
-    return mism, accepted, rej, st
+    """TLC validation of a trace; returns (mismatches, accepted, rejected_at, stats).
+
+    With the layout decoder on, a file that is not laid out as documented can stop the evaluation inside
+    ZapLayout (an index beyond a table, an impossible count).  That is itself the answer for that file
+    (not decodable from the documented layout): it is recorded as a layout mismatch of that event, the
+    file is taken out of the trace and the validation is repeated, so that the rest is still checked."""
+    extra = []
+    for attempt in range(6):
+        outp, st = tlc(sc, "TraceLife", cfg="TraceLife.cfg", env={"TRACE": trace, "LAYOUT": LAYOUT["on"], "LEAFDEC": LAYOUT["leafdec"]},
+                       workers=1, timeout=timeout, outname=name)
+        mism, accepted, rej = [], None, None
+        for tag, payload in printed(outp, ("MISMATCH", "ACCEPTED", "REJECTED-AT")):
+            if tag == "MISMATCH":
+                mism.append(json.loads(payload))
+            elif tag == "ACCEPTED":
+                accepted = payload
+            else:
+                rej = payload
+        errs = tlc_errors(outp)
+        if accepted is None and rej is None and LAYOUT["on"] == "1" and attempt < 5:
+            txt = open(outp, errors="replace").read()
+            k = txt.find("TLC threw an unexpected exception")
+            at = re.findall(r"^/\\ l = (\d+)$", txt[k:], re.M) if k >= 0 else []
+            if k >= 0 and "module ZapLayout" in txt[k:] and at:
+                ln = int(at[-1])
+                lines = open(trace).read().splitlines()
+                ev = json.loads(lines[ln - 1])
+                if ev.get("ev") in ("persist", "merge") and ev.get("bytes"):
+                    what = txt[k:k + 400].split("\n")
+                    extra.append({"l": ln, "prov": "layout", "bad": [["layout-undecodable", " ".join(x.strip() for x in what[3:6])[:160]]]})
+                    ev["bytes"], ev["path"] = [], ""
+                    lines[ln - 1] = json.dumps(ev, separators=(",", ":"))
+                    with open(trace, "w") as fh:
+                        fh.write("\n".join(lines) + "\n")
+                    continue
+        if accepted is None and rej is None:
+            raise Inconclusive("TLC neither accepted nor rejected the trace: %s\n%s" % (errs[:3], st["tail"]))
+        return sorted(mism + extra, key=lambda m: m["l"]), accepted, rej, st
 
 
 def scenario_slice(trace, l):
@@ -336,9 +359,12 @@ def run_life_check(pid, tier, seed, replay=None, pre=None):
             if "race" in ent[3:]:
                 zxr = zxr or build_harness(plan["tags"], race=True)
                 exe = zxr
-            invocations.append((exe, ["life", "-profile", prof, "-n", str(n), "-steps", str(steps), "-seed", str(seed * 1000 + k)] + margs))
+            pargs = margs
+            if prof in ("wide", "leancross") and margs:
+                pargs = ["-maxtlc", "400000" if prof == "leancross" else "60000"]   # the point of these files is their byte layout (field ids above 127)
+            invocations.append((exe, ["life", "-profile", prof, "-n", str(n), "-steps", str(steps), "-seed", str(seed * 1000 + k)] + pargs))
             log("T: %s " % prof + harness(exe, ["life", "-profile", prof, "-n", str(n), "-steps", str(steps), "-seed", str(seed * 1000 + k),
-                                            "-out", tp, "-dir", sc.path("segs%d" % (k + 1))] + margs, sc).strip())
+                                            "-out", tp, "-dir", sc.path("segs%d" % (k + 1))] + pargs, sc).strip())
             traces.append(tp)
         allp = sc.path("all.ndjson")
         ranges = []  # (first line, last line) of each harness process within the concatenated trace
